@@ -147,13 +147,27 @@ def check_stream(src, tokens, diags):
         for st in nxt:
             stack.append(st)
     if solution is None:
+        # no reading: still, a reported position must be the place of SOME character that can start the token
+        probs0 = []
+        where = {}
+        for o, pos in enumerate(vp[:-1]):
+            where.setdefault(pos, []).append(o)
+        for k, (ty, line, col, value) in enumerate(tokens):
+            first = texts[k][:1]
+            ok = False
+            for o in where.get((line, col), []):
+                if src[o] == first or TRI.get(src[o:o + 3]) == first or DI.get(src[o:o + 2]) == first:
+                    ok = True
+            if first and not ok:
+                probs0.append(("C09", "position-not-a-start", f"token {k} {ty} reported at ({line},{col}), where no character that can start it stands"))
+                break
         k, cur, why = best[0]
         if k < nt and k >= 0:
             ty = tokens[k][0]
-            return [("C10", "content-differs", f"token {k} {ty} {texts[k]!r} does not spell the source at offset {cur} ({src[cur:cur+12]!r}...): {why}")]
+            return probs0 + [("C10", "content-differs", f"token {k} {ty} {texts[k]!r} does not spell the source at offset {cur} ({src[cur:cur+12]!r}...): {why}")]
         if cur < ns:
-            return [("C10", "characters-dropped", f"characters {src[cur:cur+20]!r} at offset {cur} are in no token and not reported as bad lexemes")]
-        return [("C10", "phantom-bad-lexeme", "BAD_LEXEME diagnostics do not correspond to characters of the source")]
+            return probs0 + [("C10", "characters-dropped", f"characters {src[cur:cur+20]!r} at offset {cur} are in no token and not reported as bad lexemes")]
+        return probs0 + [("C10", "phantom-bad-lexeme", "BAD_LEXEME diagnostics do not correspond to characters of the source")]
     probs = []
     starts, badpos = solution
     for k, (ty, line, col, value) in enumerate(tokens):
@@ -163,4 +177,17 @@ def check_stream(src, tokens, diags):
         hl = d[3][0] if d[3] else None
         if hl is not None and (hl[0], hl[1]) != vp[o]:
             probs.append(("C09", "bad-lexeme-position", f"BAD_LEXEME for {src[o]!r} reported at ({hl[0]},{hl[1]}), the character is at {vp[o]}"))
+    # escape diagnostics point at the escaped character (UNKNOWN_ESCAPE) / at the `x` (NO_HEX_DIGITS): a character
+    # that directly follows a backslash, in either spelling
+    where = {}
+    for o, pos in enumerate(vp[:-1]):
+        where[pos] = o
+    for d in diags:
+        if d[0] in ("UNKNOWN_ESCAPE", "NO_HEX_DIGITS") and d[3]:
+            line, col = d[3][0][0], d[3][0][1]
+            o = where.get((line, col))
+            after_bs = o is not None and o > 0 and (src[o - 1] == "\\" or src[max(0, o - 3):o] == "??/")
+            if not after_bs or (d[0] == "NO_HEX_DIGITS" and src[o] != "x"):
+                probs.append(("C09", "escape-diagnostic-position", f"{d[0]} reported at ({line},{col}), which is not the place of an escaped character"
+                              f" ({src[o:o+1]!r} at offset {o})" if o is not None else f"{d[0]} reported at ({line},{col}): no character there"))
     return probs
